@@ -339,10 +339,10 @@ func (s *Sim) Apply(o Op) (out Outcome) {
 // ---------------------------------------------------------------- observation (public API + the verif accessors)
 
 type ValObs struct {
-	Addr thor.Address
-	V    *validation.Validation
-	Tot  *validation.Totals
-	Wd   uint64
+	Addr                                  thor.Address
+	V                                     *validation.Validation
+	Tot                                   *validation.Totals
+	Wd                                    uint64
 	AggL, AggLW, AggP, AggPW, AggE, AggEW uint64
 }
 type DelObs struct {
